@@ -42,7 +42,17 @@ def spell(vec, how, D):
     return np.array(a)
 
 
-def impl(case, how="array"):
+def impl_objects(args):
+    """Construct from the given objects (copies of ndarray arguments are NOT made here)."""
+    from pybads import BADS
+    try:
+        b = BADS(lambda x: 0.0, *args, options={"display": "off", "random_seed": 1})
+        return "ok", {"int": [[float(v) for v in np.ravel(a)] for a in (b.lower_bounds, b.upper_bounds, b.plausible_lower_bounds, b.plausible_upper_bounds, b.u)]}, 0, ""
+    except Exception as ex:
+        return type(ex).__name__, None, 0, str(ex)[:80]
+
+
+def impl(case, how="array", again=True):
     from pybads import BADS
     calls = [0]
     def f(x):
@@ -50,9 +60,16 @@ def impl(case, how="array"):
         return 0.0
     D = case["D"]
     args = [spell(case[k], how, D) for k in ("x0", "lb", "ub", "plb", "pub")]
+    before = [None if a is None or not isinstance(a, np.ndarray) else a.copy() for a in args]
     try:
         b = BADS(f, *args, options={"display": "off", "random_seed": 1})
         vt = b.var_transf
+        if again and any(a0 is not None and not np.array_equal(a0, a, equal_nan=True) for a0, a in zip(before, args)):
+            # the constructor wrote into the caller's vectors: the SAME definition objects, used once more, must still define the same problem
+            o2, n2, _c, m2 = impl_objects(args)
+            o1, n1, _c, m1 = impl_objects(before)
+            if (o1, n1) != (o2, n2):
+                return "ok", {"reuse": f"constructing a second time from the same vectors gives {o2} {m2} {n2 and n2['int']} instead of {o1} {n1 and n1['int']}"}, calls[0], ""
         norm = {"x0": [float(v) for v in np.ravel(b.x0)], "lb": [float(v) for v in np.ravel(vt.orig_lb)], "ub": [float(v) for v in np.ravel(vt.orig_ub)],
                 "plb": [float(v) for v in np.ravel(vt.orig_plb)], "pub": [float(v) for v in np.ravel(vt.orig_pub)],
                 # the problem BADS actually works on: internal (transformed) bounds and the gridised start point
@@ -154,6 +171,10 @@ def check_cases(ctx, cases, rep, tag="case"):
         else:
             stats["rejected"] += 1
             stats["reject_kinds"][m.get("err", "model-ok")] = stats["reject_kinds"].get(m.get("err", "model-ok"), 0) + 1
+        if out == "ok" and norm is not None and "reuse" in norm:
+            rep.violation("same_definition_same_problem", "bads.py:__init__ input handling / variables_transformer.py",
+                          f"{tag}: the constructor overwrote the caller's bound vectors, and {norm['reuse']}; {desc}", case)
+            continue
         # ---- the property, against its own sentence --------------------------------------------------------
         if ncalls != 0:
             rep.violation("no_target_call", "bads.py:__init__", f"{tag}: target called {ncalls} time(s) during construction; {desc}", case)
